@@ -22,13 +22,16 @@ TABLE = {
         "assumptions": ["copy.copy is a shallow copy; DBModel.natural_join_to_near_sql is a function of the node it receives"],
     },
     "C26": {
-        "mods": ["contracts.c06_builders"],
+        "mods": ["contracts.c06_builders", "contracts.c26_ctors"],
         "keys": ["ViewRepresentation.is_trivial_when_intermediate_", "OrderRowsNode.is_trivial_when_intermediate_"] + ["ViewRepresentation." + b for b in
-                 ("natural_join", "concat_rows", "select_rows_parsed_", "drop_columns", "map_columns", "rename_columns", "order_rows", "convert_records", "select_columns", "project_parsed_")],
-        "explanation": ("hybrid: PROVED (pyvc) -- the part of the property that concerns simplifiable prefixes: every builder hands ALL its arguments (join-key check flag included) "
+                 ("natural_join", "concat_rows", "select_rows_parsed_", "drop_columns", "map_columns", "rename_columns", "order_rows", "convert_records", "select_columns", "project_parsed_")]
+                + ["NaturalJoinNode.__init__", "SelectColumnsNode.__init__", "DropColumnsNode.__init__", "OrderRowsNode.__init__"],
+        "explanation": ("hybrid: PROVED (pyvc) -- (i) four constructors (NaturalJoinNode, SelectColumnsNode, DropColumnsNode, OrderRowsNode): accepted => every documented rule holds "
+                        "(join keys exist on both sides, requested common-column check passes, only known columns, reverse within order columns) and rejected with the rule's exception kind "
+                        "=> some rule is violated; (ii) the part of the property that concerns simplifiable prefixes: every builder hands ALL its arguments (join-key check flag included) "
                         "to the same builder of the source when an order_rows without limit is eliminated, and otherwise to the node constructor, and select_columns accepts only "
                         "columns of the step it is applied to also when it collapses onto an earlier select/drop; so the constructor's verdict is the verdict on the unsimplified "
-                        "sequence. The constructors' rule checks themselves (ExtendNode/ProjectNode/NaturalJoinNode/... __init__, parse_assignments_in_context) are NOT under contract: "
+                        "sequence. The remaining rule checks (ExtendNode / ProjectNode / ConcatRowsNode / Map / Rename __init__, parse_assignments_in_context) are NOT under contract: "
                         "BOUNDED -- every enumerated prefix x one violating and one conforming step per rule, rejected at build time <=> the rule predicate on the materialised description"),
         "assumptions": ["node constructors abstracted as new_C(all arguments) or a rejection at builder call sites"],
     },
@@ -40,6 +43,13 @@ TABLE = {
                         "value, column name, shape or row order differs) and store/get histories on the real code"),
         "assumptions": ["make_cache_key is a function of (model name, sql, table names and CONTENTS) -- its body is only in the bounded run",
                         "pandas: df.copy() is a new object with equal content; a.equals(b) <=> same content", "data_cache is never None (the debug store is enabled, as constructed)"],
+    },
+    "C18": {
+        "mods": ["contracts.glue"], "keys": ["SQLModel.order_to_near_sql"],
+        "explanation": ("hybrid: PROVED (pyvc) -- SQLModel.order_to_near_sql hands the formatter exactly the quoted order columns in order, with ' DESC' appended exactly on the reversed "
+                        "ones, the suffix starts with ORDER BY when there are order columns and ends with 'LIMIT <n>' exactly when a limit is set (limit=0 included); BOUNDED -- permutation / "
+                        "re-index invariance and sortedness+limit of the results on Pandas, Polars, SQLite over the enumerated scope (the Pandas/Polars sort calls are not under contract)"),
+        "assumptions": ["string + is an uninterpreted cancellative concatenation; quote_identifier, _indent_and_sep_terms, NearSQLUnaryStep keep what they are given (near_sql rendering not under contract)"],
     },
     "C19": {
         "mods": ["contracts.glue"], "keys": ["PandasModel.clean_copy", "PandasModel._table_step"],
